@@ -30,6 +30,7 @@ type VNet struct {
 	// interception
 	ffTamper     func(server *NNode, resp *bnet.FastForwardResponse) // applied to fast-forward responses
 	joinTamper   func(resp *bnet.JoinResponse)
+	joinForge    func(req *bnet.JoinRequest) *bnet.JoinResponse
 	syncTamper   func(resp *bnet.SyncResponse)
 	down         map[int]bool // unreachable nodes
 	steps        int
@@ -153,6 +154,11 @@ func (t *VTransport) FastForward(target string, args *bnet.FastForwardRequest, r
 }
 
 func (t *VTransport) Join(target string, args *bnet.JoinRequest, resp *bnet.JoinResponse) error {
+	if t.vn.joinForge != nil {
+		// whoever answers at the configured address makes the response up
+		*resp = *t.vn.joinForge(args)
+		return nil
+	}
 	r, err := t.call(target, args)
 	if r != nil {
 		if jr, ok := r.(*bnet.JoinResponse); ok && jr != nil {
